@@ -14,6 +14,25 @@ def utf8 (cp : Nat) : List Nat :=
   else if cp < 0x10000 then [0xE0 + cp / 4096, 0x80 + cp / 64 % 64, 0x80 + cp % 64]
   else [0xF0 + cp / 262144, 0x80 + cp / 4096 % 64, 0x80 + cp / 64 % 64, 0x80 + cp % 64]
 
+def isCont (b : Nat) : Bool := 0x80 ≤ b && b ≤ 0xBF
+
+/-- length announced by a lead byte (0 = not a lead byte): RFC 3629 section 3 table, first column -/
+def seqLen (b : Nat) : Nat :=
+  if b < 0x80 then 1 else if b < 0xC0 then 0 else if b < 0xE0 then 2 else if b < 0xF0 then 3
+  else if b < 0xF8 then 4 else 0
+
+/-- structural well-formedness of a UTF-8 byte string (RFC 3629 syntax without the restrictions on
+    over-long forms, surrogates and values above U+10FFFF): empty, or a lead byte announcing `n` bytes
+    followed by `n - 1` continuation bytes and a well-formed rest -/
+def wellFormed (l : List Nat) : Bool :=
+  match l with
+  | [] => true
+  | b :: rest =>
+    seqLen b != 0 && decide (seqLen b ≤ rest.length + 1) && (rest.take (seqLen b - 1)).all isCont &&
+      wellFormed (rest.drop (seqLen b - 1))
+termination_by l.length
+decreasing_by simp only [List.length_drop, List.length_cons]; omega
+
 /-- ASCII code of the upper-case hexadecimal digit `n < 16` -/
 def upperHexDigit (n : Nat) : Nat := if n < 10 then 48 + n else 55 + n
 
